@@ -303,6 +303,13 @@ def numbering(scheme, n):
             out.append(v)
             v += inc[k % len(inc)]
         return out
+    if scheme == "descending":          # the statement says "arbitrary" numbers: not increasing either
+        return [3 * (n - k) + 1 for k in range(n)]
+    if scheme == "shuffled":
+        base = numbering("gaps", n)
+        r = random.Random(1009 * n + 17)
+        r.shuffle(base)
+        return base
     raise ValueError(scheme)
 
 
@@ -346,6 +353,8 @@ _HAND = [
          dup=True, bondcols=0, mass=False, molname=1),
     deco(num="contig", extra=True, order=5, comments=2, repeat=True, hstyle=5),
     deco(num="shift1", trail_ws=True, lead="\t", extra=True, dup=True, hstyle=2, res="each"),
+    deco(num="descending", comments=1, res="each", bondcols=1),
+    deco(num="shuffled", sep=2, extra=True, flip=True, res="pairs", molname=2),
     deco(num="gaps", order=2, comments=1, res="each"),     # [ atoms ] after the bond sections (outside the quantifier)
     deco(num="offset", order=3, extra=True, trailing=True),  # [ constraints ] before [ atoms ] (outside the quantifier)
 ]
@@ -353,7 +362,7 @@ _HAND = [
 
 def random_deco(k):
     r = random.Random(7919 * (k + 1))
-    return deco(num=r.choice(["contig", "offset", "shift1", "big", "gaps", "gaps"]), res=r.choice(["one", "each", "pairs"]),
+    return deco(num=r.choice(["contig", "offset", "shift1", "big", "gaps", "gaps", "descending", "shuffled"]), res=r.choice(["one", "each", "pairs"]),
                 sep=r.randrange(5), lead=r.choice(["", "", " ", "\t"]), trail_ws=r.random() < 0.3, comments=r.randrange(3),
                 trailing=r.random() < 0.5, blanks=r.random() < 0.5, prepro=r.randrange(3), order=r.randrange(len(ORDERS)),
                 extra=r.random() < 0.5, empty=r.random() < 0.4, repeat=r.random() < 0.4, hstyle=r.randrange(7),
